@@ -201,6 +201,56 @@ def snapshot(v):
 
 
 # ---------------------------------------------------------------------------------------------
+# observable state ("unchanged" in the properties means: what a caller can observe is unchanged; internal
+# caches or lazily normalised tables are the library's own business, so the exact canonical form is NOT used
+# for these clauses)
+
+
+def observe(v):
+    """text, identity-renamed ordered cells, two renderings (optimised / unoptimised with a leading reset) and, for
+    an AnsiStr, its str payload.  A value that can no longer be read is an observation of its own."""
+    try:
+        s = v._s if isinstance(v, AnsiStr) else v
+        t, cells = alpha(s)
+        out = (type(v).__name__, t, tuple(cells), s.to_str(), s.to_str(optimize=False, reset_start=True, reset_end=False))
+        if isinstance(v, AnsiStr):
+            out += (str.__str__(v),)
+        return out
+    except env.HarnessError:
+        raise
+    except Exception as e:  # noqa
+        return ('unreadable', 'reading it raises %s: %s' % (type(e).__name__, e))
+
+
+def freeze_value(v):
+    """Observation + an independent deep copy to compare with == later (the property names ==)."""
+    import copy
+    cp = None
+    if not isinstance(v, AnsiStr):      # (copy.deepcopy re-parses an AnsiStr's payload; its == is a payload comparison,
+        try:                            #  which observe() already records)
+            cp = copy.deepcopy(v)
+        except Exception:  # noqa
+            cp = None
+    return (observe(v), cp)
+
+
+def unchanged(v, frozen):
+    if observe(v) != frozen[0]:
+        return False
+    if frozen[1] is not None:
+        try:
+            if not (v == frozen[1]):
+                return False
+        except Exception:  # noqa
+            return False
+    return True
+
+
+def describe_obs(o):
+    return repr(o[1:3])[:300]
+
+
+# ---------------------------------------------------------------------------------------------
 # universal probes
 
 PROBE_CODE = '95'   # a colour no palette role uses
